@@ -11,6 +11,7 @@
 package contract
 
 import (
+	"database/sql"
 	"math/big"
 
 	"github.com/aergoio/aergo/v2/state"
@@ -634,4 +635,175 @@ func c20ResetView(service int) {
 func c20ClearQueryFlag(service int) {
 	ctx := contexts[service]
 	ctx.isQuery = false
+}
+
+// ---------------------------------------------------------------------------------- round 3
+
+type sqlTx interface {
+	savepoint() error
+}
+
+func dataSrc(dbName string) string { return "file:" + dbName + ".db?branches=on" }
+
+// the read-only SQL handle: a connection opened with the query_only pragma
+func beginReadOnly(dbName string, rp uint64) (sqlTx, error) {
+	db, err := sql.Open(queryDriver, dataSrc(dbName)+"&_query_only=true")
+	if err != nil {
+		return nil, err
+	}
+	_ = db
+	return nil, nil
+}
+
+// the same without the pragma: a writable connection
+func c20beginReadOnlyNoPragma(dbName string, rp uint64) (sqlTx, error) {
+	db, err := sql.Open(queryDriver, dataSrc(dbName))
+	if err != nil {
+		return nil, err
+	}
+	_ = db
+	return nil, nil
+}
+
+// falls back to the writable transaction when the read-only open fails
+func c20beginReadOnlyFallback(dbName string, rp uint64) (sqlTx, error) {
+	db, err := sql.Open(queryDriver, dataSrc(dbName)+"&_query_only=true")
+	if err != nil {
+		return beginTx(dbName, rp)
+	}
+	_ = db
+	return nil, nil
+}
+
+// query mode opens its "read-only" handle without the query_only pragma
+//
+// verdict: unguarded
+//
+//export c20DbHandleNoPragma
+func c20DbHandleNoPragma(service int) sqlTx {
+	ctx := contexts[service]
+	var tx sqlTx
+	if ctx.isQuery == true {
+		tx, _ = c20beginReadOnlyNoPragma("x", ctx.curContract.rp)
+	} else {
+		tx, _ = beginTx("x", ctx.curContract.rp)
+	}
+	return tx
+}
+
+// verdict: unguarded
+//
+//export c20DbHandleFallback
+func c20DbHandleFallback(service int) sqlTx {
+	ctx := contexts[service]
+	var tx sqlTx
+	if ctx.isQuery == true {
+		tx, _ = c20beginReadOnlyFallback("x", ctx.curContract.rp)
+	} else {
+		tx, _ = beginTx("x", ctx.curContract.rp)
+	}
+	return tx
+}
+
+// the guard reads the flags of another context (slot 0), not of the context the callback runs for
+//
+// verdict: unguarded
+//
+//export c20GuardOnOtherSlot
+func c20GuardOnOtherSlot(service int, key, value []byte) string {
+	ctx := contexts[service]
+	other := contexts[0]
+	if other.isQuery == true || other.nestedView > 0 {
+		return "not permitted in query"
+	}
+	ctx.curContract.callState.ctrState.SetData(key, value)
+	return ""
+}
+
+// the guard reads the flags of a context that was just built
+//
+// verdict: unguarded
+//
+//export c20GuardOnFreshContext
+func c20GuardOnFreshContext(service int, key, value []byte) string {
+	ctx := contexts[service]
+	fresh := &vmContext{}
+	if fresh.isQuery || fresh.nestedView > 0 {
+		return "not permitted in query"
+	}
+	ctx.curContract.callState.ctrState.SetData(key, value)
+	return ""
+}
+
+// half of the guard is on the wrong object
+//
+// verdict: unguarded
+//
+//export c20GuardHalfForeign
+func c20GuardHalfForeign(service int, prevService int, key, value []byte) string {
+	ctx := contexts[service]
+	prevCtx := contexts[prevService+1]
+	if ctx.isQuery == true || prevCtx.nestedView > 0 {
+		return "not permitted in query"
+	}
+	ctx.curContract.callState.ctrState.SetData(key, value)
+	return ""
+}
+
+// a helper that guards with the flags of its parameter is handed another context
+//
+// verdict: unguarded
+//
+//export c20HelperGetsForeignContext
+func c20HelperGetsForeignContext(service int, key, value []byte) {
+	ctx := contexts[service]
+	_ = ctx
+	c20guardedStore(contexts[0], key, value)
+}
+
+func c20guardedStore(ctx *vmContext, key, value []byte) {
+	if ctx.isQuery == true || ctx.nestedView > 0 {
+		return
+	}
+	ctx.curContract.callState.ctrState.SetData(key, value)
+}
+
+// the same helper with the own context
+//
+// verdict: guarded
+//
+//export c20HelperGetsOwnContext
+func c20HelperGetsOwnContext(service int, key, value []byte) {
+	ctx := contexts[service]
+	c20guardedStore(ctx, key, value)
+}
+
+// harmless rewrites of the guard: no `== true`, operands swapped, extra parentheses, context variable renamed
+//
+// verdict: guarded
+//
+//export c20GuardRewritten
+func c20GuardRewritten(service int, key, value []byte) string {
+	c := contexts[service]
+	if (c.isQuery) || (0 < c.nestedView) {
+		return "not permitted in query"
+	}
+	c.curContract.callState.ctrState.SetData(key, value)
+	return ""
+}
+
+// the context variable is reassigned to another slot before the guard
+//
+// verdict: unguarded
+//
+//export c20ContextReassigned
+func c20ContextReassigned(service int, key, value []byte) string {
+	ctx := contexts[service]
+	target := ctx.curContract.callState.ctrState
+	ctx = contexts[0]
+	if ctx.isQuery == true || ctx.nestedView > 0 {
+		return "not permitted in query"
+	}
+	target.SetData(key, value)
+	return ""
 }
